@@ -354,6 +354,17 @@ Proof.
   apply NoDup_app_snoc; assumption.
 Qed.
 
+Lemma alookup_cdel V k x (l : list (N * V)) :
+  alookup x (cdel k l) = if x =? k then None else alookup x l.
+Proof.
+  unfold cdel. induction l as [|[k' v] t IH]; cbn [filter alookup fst]; [now destruct (x =? k)|].
+  destruct (k' =? k) eqn:E; cbn [negb].
+  - rewrite IH. destruct (x =? k) eqn:Ex; [reflexivity|].
+    replace (x =? k') with false by lia. reflexivity.
+  - cbn [alookup]. destruct (x =? k') eqn:Ex'; [|exact IH].
+    replace (x =? k) with false by lia. reflexivity.
+Qed.
+
 (** * the statement-counting monad *)
 
 (* [fok m]: without a fault the counter stays [None]; with a fault the computation either
